@@ -243,3 +243,7 @@ impl Spawner for NtsPoolSpawner {
         "nts-pool"
     }
 }
+
+#[cfg(all(test, pendulum_project_ntpd_rs_verif))]
+#[path = "/verif/harness/ntpd/probe_spawn_nts_pool.rs"]
+pub(crate) mod verif_probe;
